@@ -211,7 +211,7 @@ func (p *Packet) NewData(data interface{}, dims []int16) error {
 	if p.timestamp != nil {
 		p.headerLength += 16
 	}
-	var payloadLength int // in bytes; checked against the maximum before it is narrowed to uint16
+	var payloadLength int // in bytes, not narrowed to uint16: this is what the length check must use
 	pfmt := new(headPayloadFormat)
 	pfmt.dtype = make([]reflect.Kind, 1)
 	pfmt.endian = binary.LittleEndian
@@ -222,18 +222,21 @@ func (p *Packet) NewData(data interface{}, dims []int16) error {
 		pfmt.dtype[0] = reflect.Int16
 		pfmt.wordlen = 2
 		payloadLength = pfmt.wordlen * len(d)
+		p.payloadLength = uint16(payloadLength)
 		p.Data = d
 	case []int32:
 		pfmt.rawfmt = "<i"
 		pfmt.dtype[0] = reflect.Int32
 		pfmt.wordlen = 4
 		payloadLength = pfmt.wordlen * len(d)
+		p.payloadLength = uint16(payloadLength)
 		p.Data = d
 	case []int64:
 		pfmt.rawfmt = "<q"
 		pfmt.dtype[0] = reflect.Int64
 		pfmt.wordlen = 8
 		payloadLength = pfmt.wordlen * len(d)
+		p.payloadLength = uint16(payloadLength)
 		p.Data = d
 	default:
 		return fmt.Errorf("could not handle Packet.NewData of type %v", reflect.TypeOf(d))
@@ -250,7 +253,6 @@ func (p *Packet) NewData(data interface{}, dims []int16) error {
 	if p.packetLength > maxPACKETLENGTH {
 		return fmt.Errorf("packet length %d exceeds max of %d", p.packetLength, maxPACKETLENGTH)
 	}
-	p.payloadLength = uint16(payloadLength)
 	p.sequenceNumber++
 	return nil
 }
